@@ -130,6 +130,27 @@ def run(ctx):
                   "(types completed with id: %s, without: %s): a peer opening a uni stream of that type makes accept()/poll_close() panic"
                   % (bad or sorted(map(str, need)), sorted(map(str, gets)), sorted(map(str, lacks))), "need=%s gets=%s" % (sorted(map(str, need)), sorted(map(str, gets))))
 
+    # the `ubc` entry for the two `expect("this cannot be None")` in poll_accept_recv relies on the loop visiting only filled slots:
+    # the iteration over pending_recv_streams goes through `.filter(|s| s.is_some())`
+    par = ru.need(ctx, "C06-a", "h3::connection::ConnectionInner::poll_accept_recv")
+    if par:
+        flt = [t for bb, t in par.all_terms() if t.t == "call" and t.cname == "filter" and "core::iter" in (t.tkey or t.ckey or "")]
+        okf = False
+        for t in flt:
+            for a in t.args[1:]:
+                if a.place is not None:
+                    for bb2, i2, s2 in par.all_stmts():
+                        if s2.s == "assign" and s2.place.is_local() and s2.place.local == a.place.local and s2.rv.rv == "aggregate" and s2.rv.agg == "closure":
+                            cb = prog.one(s2.rv.def_)
+                            if cb is not None and any(t2.t == "call" and t2.cname == "is_some" for _, t2 in cb.all_terms()):
+                                okf = True
+        exp_ = [t for bb, t in par.all_terms() if t.t == "call" and t.cname in ("expect", "unwrap") and (t.ckey or "").startswith("core::option::Option")]
+        # (when the emptiness test is written into the loop body instead, the guard on the path discharges the sites by itself)
+        open_ = [1 for bb, t, kind, status, detail in panics.audit_body(prog, par) if kind in ("expect", "unwrap") and status != "discharged"]
+        ctx.check(okf or not open_, "C06-a", par.key, "slots are unwrapped only behind `.filter(|s| s.is_some())`",
+                  "poll_accept_recv unwraps the slots of pending_recv_streams (%d expect/unwrap) but no longer iterates through a filter on is_some(): a slot "
+                  "emptied earlier (a uni stream that ended or was reset before its type arrived) makes the next poll panic" % len(exp_), "")
+
     # ------------------------------------------------------------------ C06-b
     wa = wake.WakeAnalysis(prog)
     nb = npend = 0
@@ -151,7 +172,9 @@ def run(ctx):
             if b.key == "h3::frame::FrameStream::poll_data":
                 tr = [t for t in p.tests if pa.head_call(t[3])[0] == "h3::frame::FrameStream::try_recv"]
                 tk = [t for t in p.tests if pa.head_call(t[3])[0] and pa.head_call(t[3])[0].endswith("take_chunk")]
-                if [t[2] for t in tr][:2] == ["Ready", "Ok"] and tr[-1][2] == "false" and tk and tk[-1][2] == "None":
+                ci_ = [i for i, e in enumerate(p.events) if e[0] == "call" and e[2].is_call("h3::frame::FrameStream::try_recv", "take_chunk")]
+                order_ok = [p.events[i][2].cname for i in ci_][-2:] == ["try_recv", "take_chunk"]      # the buffer is consulted AFTER the read that filled it
+                if order_ok and [t[2] for t in tr][:2] == ["Ready", "Ok"] and tr[-1][2] == "false" and tk and tk[-1][2] == "None":
                     desc = "try_recv=Ready(Ok(false)) & take_chunk=None"
             if desc and (b.key, desc) in A7_EXCEPTIONS:
                 ctx.ok("C06-b", "%s:%s" % (b.key, desc), "excepted: " + A7_EXCEPTIONS[(b.key, desc)])
